@@ -42,9 +42,20 @@ impl SimulationBoundary {
         // the tripled box) *and* the mirror images of the generators through the walls, which
         // lie in [anchor - width, anchor + 2 width] (both ends included), strictly inside
         // the half open range [1, 2) after rescaling.
+        //
+        // The exact in-sphere test on the integer grid is only equivalent to the Euclidean one when
+        // the map to the grid is a similarity: all axes along which generators can differ must share
+        // one scale (the largest extent), otherwise ties are decided in a distorted metric.
+        let grid_width = match dimensionality {
+            Dimensionality::OneD => width,
+            Dimensionality::TwoD => {
+                DVec3::new(width.x.max(width.y), width.x.max(width.y), width.z)
+            }
+            Dimensionality::ThreeD => DVec3::splat(width.max_element()),
+        };
         Self {
             anchor: anchor - 1.5 * width,
-            inverse_width: 1. / (4. * width),
+            inverse_width: 1. / (4. * grid_width),
             dimensionality,
             clipping_planes,
         }
